@@ -260,6 +260,16 @@ theorem stepD_true (s : State) (e : Event) : stepD true s e = step s e := by
 inductive Variant where
   | unlockBeforeReset   -- deferred release: mutex.Unlock() first, MutexeOwners[name] = 0 afterwards
   | ownerBeforeLock     -- MutexeOwners[name] = tid before mutex.Lock()
+  | lockInSection       -- mutex.Lock() inside the MutexesMutex section that read the owner
+
+/-- In the variant `lockInSection` the table lock `MutexesMutex` is explicit: it is kept in the
+    entry of this reserved name (no program uses it). -/
+def tableLock : Nat := 1000000
+
+def takeTable (s : State) (t : Nat) : State :=
+  setMtx s tableLock { s.mtx tableLock with locked := true, holder := some t }
+def dropTable (s : State) : State :=
+  setMtx s tableLock { s.mtx tableLock with locked := false, holder := none }
 
 def stepV (v : Variant) (s : State) (e : Event) : Option State :=
   match v, e with
@@ -277,6 +287,15 @@ def stepV (v : Variant) (s : State) (e : Event) : Option State :=
     match (s.thr t).pc with
     | .wantLock a => some (setMtx s a { s.mtx a with owner := t })
     | _ => step s (.setOwner t)
+  -- lockInSection: the section opened by `look` stays open until the thread has the named mutex
+  -- and has registered (or has found itself to be the owner); the release needs the table lock
+  | .lockInSection, .look t a =>
+    if (s.mtx tableLock).locked = false then (step s (.look t a)).map (takeTable · t) else none
+  | .lockInSection, .decide t =>
+    (step s (.decide t)).map fun s' => if (s'.thr t).pc = .run then dropTable s' else s'
+  | .lockInSection, .setOwner t => (step s (.setOwner t)).map dropTable
+  | .lockInSection, .resetOwner t =>
+    if (s.mtx tableLock).locked = false then step s (.resetOwner t) else none
   | _, e => step s e
 
 def runWith (f : State → Event → Option State) (s : State) : List Event → Option State
